@@ -87,18 +87,24 @@ def ofDigitsLE : List Nat → Nat
   | [] => 0
   | d :: ds => d + 10 * ofDigitsLE ds
 
-theorem ofDigitsLE_digitsLE (n : Nat) : ofDigitsLE (digitsLE n) = n := by
-  induction n using Nat.strongRecOn with
-  | _ n ih =>
-    rw [digitsLE]
+theorem ofDigitsLE_digitsFuel : ∀ (fuel n : Nat), n < fuel → ofDigitsLE (digitsFuel fuel n) = n := by
+  intro fuel
+  induction fuel with
+  | zero => intro n h; omega
+  | succ fuel ih =>
+    intro n h
+    unfold digitsFuel
     split
     · simp [ofDigitsLE]
     · simp only [ofDigitsLE]
       rw [ih (n / 10) (by omega)]
       omega
 
+theorem ofDigitsLE_digitsLE (n : Nat) : ofDigitsLE (digitsLE n) = n :=
+  ofDigitsLE_digitsFuel (n + 1) n (by omega)
+
 theorem digitsLE_ne_nil (n : Nat) : digitsLE n ≠ [] := by
-  rw [digitsLE]; split <;> simp
+  unfold digitsLE digitsFuel; split <;> simp
 
 theorem itoa_injective {a b : Nat} (h : itoa a = itoa b) : a = b := by
   unfold itoa at h
